@@ -13,6 +13,16 @@ from .seval import S, StructureMismatch
 from .world import Ambiguous, Unsupported
 
 
+def safe_str(o, n=400):
+    """str() that survives cyclic or otherwise broken expressions."""
+    try:
+        return str(o)[:n]
+    except RecursionError:
+        return "<cyclic expression: str() recursed without end>"
+    except Exception as ex:  # pragma: no cover
+        return f"<unprintable: {type(ex).__name__}>"
+
+
 def subexpressions(e):
     """All distinct (by identity) sub-expressions, smallest first."""
     seen = {}
